@@ -383,3 +383,150 @@ Example lazyarray_example :
   lazy_run (CLazyArray (XConst (VInt 3)) CVarInt) [] [x81; x01; x05; xff; x7f] 0 [2; 0; 2; 1]%nat
   = Ok (5%Z, [LVal (VInt 16383) 5; LVal (VInt 129) 5; LVal (VInt 16383) 5; LVal (VInt 5) 5]).
 Proof. vm_compute. reflexivity. Qed.
+
+(* ---- LazyStruct against the eager Struct ---- *)
+
+(* what a member must satisfy: it does not read the context (no references to siblings or outer fields), it is not a
+   StopIf, and when its size can be measured the measure is what parsing consumes; measuring fails only with SizeofError *)
+Definition member_ok (c : con) : Prop :=
+  is_stopif c = false /\
+  (forall cx cx' p s, parse c cx p s = parse c cx' p s) /\
+  (forall cx cx' p s, actualsize_with parse c cx p s = actualsize_with parse c cx' p s) /\
+  (forall cx p s v s', parse c cx p s = Ok (v, s') ->
+      match actualsize_with parse c cx p s with
+      | Ok n => itell s' = (itell s + n)%Z
+      | Err ESizeof _ => True
+      | Err _ _ => False
+      end).
+
+(* the eager run, member by member: (member, stream before, value, stream after) *)
+Inductive struct_trace (cx : ctx) (p : path) : list con -> istream -> list val -> istream -> Prop :=
+| st_nil s : struct_trace cx p [] s [] s
+| st_cons c t s v s1 vs s' : parse c cx p s = Ok (v, s1) -> struct_trace cx p t s1 vs s' -> struct_trace cx p (c :: t) s (v :: vs) s'.
+
+Lemma struct_trace_sb cx p cs s vs s' : struct_trace cx p cs s vs s' -> sb s s'.
+Proof.
+  induction 1 as [s|c t s v s1 vs s' E _ IH]; [apply sb_refl|].
+  eapply sb_trans; [|exact IH]. pose proof (parse_frame c cx p s s (sb_refl s)) as H. rewrite E in H. exact H.
+Qed.
+
+Lemma struct_trace_length cx p cs s vs s' : struct_trace cx p cs s vs s' -> length vs = length cs.
+Proof. induction 1; cbn; congruence. Qed.
+
+(* the eager Struct loop, when it succeeds over members that are not StopIf, is such a run (in any context) *)
+Lemma struct_loop_trace cx0 cs : Forall member_ok cs -> forall cx p acc s kv cx' s',
+  struct_loop parse cs cx p acc s = Ok (kv, cx', s') -> exists vs, struct_trace cx0 p cs s vs s'.
+Proof.
+  induction 1 as [|c t (Hstop & Hctx & _) Ht IH]; intros cx p acc s kv cx' s'; cbn [struct_loop].
+  - intros E. injection E as _ _ <-. exists []. constructor.
+  - destruct (parse c cx p s) as [[v s1]|e q] eqn:Ep.
+    + intros E. assert (E' : exists vs, struct_trace cx0 p t s1 vs s') by (destruct (name_of c); eapply IH; exact E).
+      destruct E' as (vs & Hv). exists (v :: vs). econstructor; [rewrite (Hctx cx0 cx); exact Ep|exact Hv].
+    + destruct e; try discriminate. rewrite Hstop. discriminate.
+Qed.
+
+Lemma lazy_scan_struct_trace cx p : forall cs, Forall member_ok cs ->
+  forall s vs s', struct_trace cx p cs s vs s' -> iseekable s = true ->
+  forall i offs cache cxl, length offs = S i -> nth_error offs i = Some (itell s) ->
+  (forall j, i <= j -> cache_get j cache = None) ->
+  exists offs' cache' cxl',
+    lazy_scan_struct parse cs p (i, itell s, cxl, s, offs, cache) = Ok ((i + length cs)%nat, itell s', cxl', s', offs', cache') /\
+    length offs' = S (i + length cs) /\
+    (forall j, j <= i -> nth_error offs' j = nth_error offs j) /\
+    (forall j, j < i -> cache_get j cache' = cache_get j cache) /\
+    (forall m c v, nth_error cs m = Some c -> nth_error vs m = Some v ->
+       cache_get (i + m) cache' = Some v \/
+       (cache_get (i + m) cache' = None /\
+        exists sm sm1, nth_error offs' (i + m) = Some (itell sm) /\ sb s sm /\ parse c cx p sm = Ok (v, sm1))).
+Proof.
+  intros cs Hok. induction Hok as [|c t (Hstop & Hctx & Hact & Hsz) Ht IH]; intros s vs s' Htr Hk i offs cache cxl Hlen Hlast Hnone.
+  - inversion Htr; subst. exists offs, cache, cxl. cbn [length lazy_scan_struct]. rewrite Nat.add_0_r. repeat split; auto.
+    intros m c v E. destruct m; discriminate.
+  - inversion Htr as [|c0 t0 s0 v s1 vs0 s0' Ep Htr']; subst.
+    pose proof (parse_frame c cx p s s (sb_refl s)) as Hf. rewrite Ep in Hf. cbn [fr] in Hf.
+    assert (Hk1 : iseekable s1 = true) by (destruct Hf as (_ & _ & H3); congruence).
+    cbn [length lazy_scan_struct]. unfold lazy_step. specialize (Hsz cx p s v s1 Ep). rewrite (Hact cxl cx).
+    destruct (actualsize_with parse c cx p s) as [n|e q].
+    + rewrite <- Hsz. rewrite (iseek_to s s1 p Hk Hf). cbn [bind].
+      destruct (IH s1 vs0 s' Htr' Hk1 (S i) (offs ++ [itell s1]) cache cxl) as (offs' & cache' & cxl' & Es & Hl' & Hpre & Hc & Hm).
+      { rewrite app_length. cbn. lia. }
+      { rewrite nth_error_app2 by lia. rewrite Hlen, Nat.sub_diag. reflexivity. }
+      { intros j Hj. apply Hnone. lia. }
+      exists offs', cache', cxl'. replace (i + S (length t))%nat with (S i + length t)%nat by lia.
+      split; [exact Es|]. split; [exact Hl'|]. split; [|split].
+      * intros j Hj. rewrite Hpre by lia. apply nth_error_app1. lia.
+      * intros j Hj. apply Hc. lia.
+      * intros m c' w Ec Em. destruct m as [|m]; cbn [nth_error] in Ec, Em.
+        -- injection Ec as <-. injection Em as <-. right. rewrite Nat.add_0_r. split; [rewrite Hc by lia; apply Hnone; lia|].
+           exists s, s1. split; [|split; [apply sb_refl|exact Ep]]. rewrite Hpre by lia. rewrite nth_error_app1 by lia. exact Hlast.
+        -- replace (i + S m)%nat with (S i + m)%nat by lia. destruct (Hm m c' w Ec Em) as [Hl|(Hn & sm & sm1 & Ho & Hsb & Epm)]; [left; exact Hl|].
+           right. split; [exact Hn|]. exists sm, sm1. split; [exact Ho|]. split; [eapply sb_trans; eassumption|exact Epm].
+    + destruct e; try contradiction.
+      rewrite (iseek_restores s s p Hk (sb_refl s)). cbn [bind]. rewrite (Hctx cxl cx), Ep. cbn [bind].
+      match goal with |- context [lazy_scan_struct parse t p (S i, itell s1, ?cxn, s1, _, _)] => set (cxl1 := cxn) end.
+      destruct (IH s1 vs0 s' Htr' Hk1 (S i) (offs ++ [itell s1]) (cache ++ [(i, v)]) cxl1) as (offs' & cache' & cxl' & Es & Hl' & Hpre & Hc & Hm).
+      { rewrite app_length. cbn. lia. }
+      { rewrite nth_error_app2 by lia. rewrite Hlen, Nat.sub_diag. reflexivity. }
+      { intros j Hj. rewrite cache_get_app, Hnone by lia. destruct (Nat.eqb j i) eqn:E; [apply Nat.eqb_eq in E; lia|reflexivity]. }
+      exists offs', cache', cxl'. replace (i + S (length t))%nat with (S i + length t)%nat by lia.
+      split; [exact Es|]. split; [exact Hl'|]. split; [|split].
+      * intros j Hj. rewrite Hpre by lia. apply nth_error_app1. lia.
+      * intros j Hj. rewrite Hc by lia. rewrite cache_get_app. destruct (cache_get j cache); [reflexivity|].
+        destruct (Nat.eqb j i) eqn:E; [apply Nat.eqb_eq in E; lia|reflexivity].
+      * intros m c' w Ec Em. destruct m as [|m]; cbn [nth_error] in Ec, Em.
+        -- injection Ec as <-. injection Em as <-. left. rewrite Nat.add_0_r. rewrite Hc by lia. rewrite cache_get_app, Hnone by lia. rewrite Nat.eqb_refl. reflexivity.
+        -- replace (i + S m)%nat with (S i + m)%nat by lia. destruct (Hm m c' w Ec Em) as [Hl|(Hn & sm & sm1 & Ho & Hsb & Epm)]; [left; exact Hl|].
+           right. split; [exact Hn|]. exists sm, sm1. split; [exact Ho|]. split; [eapply sb_trans; eassumption|exact Epm].
+Qed.
+
+(* C16 for LazyStruct: whenever the eager Struct parses, LazyStruct parses to the same final stream, and every member,
+   whenever first accessed, is the value the eager parse gave that member *)
+Theorem lazystruct_matches_struct cs cx p s kv s_e :
+  iseekable s = true -> Forall member_ok cs ->
+  parse (CStruct cs) cx p s = Ok (VDict kv, s_e) ->
+  exists l vs, lazy_parse (CLazyStruct cs) cx p s = Ok (l, s_e) /\ l_count l = length cs /\
+               struct_trace (push_scope cx) p cs s vs s_e /\
+               forall i v, nth_error vs i = Some v -> exists l', lazy_access l i s_e = Ok (v, l', s_e).
+Proof.
+  intros Hk Hok. cbn [parse lazy_parse].
+  destruct (struct_loop parse cs (push_scope cx) p [] s) as [[[kv0 cx1] s0]|e q] eqn:El; [cbn [bind]|discriminate].
+  intros E. injection E as -> ->.
+  destruct (struct_loop_trace (push_scope cx) cs Hok _ _ _ _ _ _ _ El) as (vs & Htr).
+  destruct (lazy_scan_struct_trace (push_scope cx) p cs Hok s vs s_e Htr Hk 0%nat [itell s] [] (push_scope cx) eq_refl eq_refl (fun _ _ => eq_refl))
+    as (offs' & cache' & cxl' & Es & Hlen & Hpre & Hc & Hm).
+  cbn [Nat.add] in Es. rewrite Es. cbn [bind].
+  eexists. exists vs. split; [reflexivity|]. cbn [l_count]. split; [reflexivity|]. split; [exact Htr|].
+  intros i v Ei. rewrite lazy_access_unfold. cbn [l_cache l_member l_offsets l_ctx l_path].
+  assert (Hlt : (i < length cs)%nat) by (rewrite <- (struct_trace_length _ _ _ _ _ _ Htr); apply nth_error_Some; congruence).
+  destruct (nth_error cs i) as [c|] eqn:Eci; [|apply nth_error_None in Eci; lia].
+  destruct (Hm i c v Eci Ei) as [Hhit|(Hmiss & sm & sm1 & Ho & Hsb & Ep)]; cbn [Nat.add] in *.
+  - rewrite Hhit. eexists. reflexivity.
+  - rewrite Hmiss, Ho. unfold lazy_force.
+    pose proof (struct_trace_sb _ _ _ _ _ _ Htr) as Hse.
+    assert (Hke : iseekable s_e = true) by (destruct Hse as (_ & _ & H3); congruence).
+    assert (Hsm : sb s_e sm) by (eapply sb_trans; [apply sb_sym, Hse|exact Hsb]).
+    rewrite (iseek_to s_e sm p Hke Hsm). cbn [bind].
+    assert (Hci : member_ok c) by (rewrite Forall_forall in Hok; apply Hok; eapply nth_error_In; exact Eci).
+    destruct Hci as (_ & Hctx & _). rewrite (Hctx cxl' (push_scope cx)), Ep. cbn [bind].
+    pose proof (parse_frame c (push_scope cx) p sm sm (sb_refl sm)) as Hf. rewrite Ep in Hf. cbn [fr] in Hf.
+    rewrite (iseek_restores s_e sm1 p Hke (sb_trans _ _ _ Hsm Hf)). cbn [bind]. eexists. reflexivity.
+Qed.
+
+(* the member hypothesis is satisfiable: fixed-size integers / floats (also under a name), VarInt *)
+Lemma member_ok_format en f : member_ok (CFormat en f).
+Proof.
+  split; [reflexivity|]. split; [reflexivity|]. split; [reflexivity|]. apply (proj2 (elem_ok_format en f)).
+Qed.
+Lemma member_ok_varint : member_ok CVarInt.
+Proof. split; [reflexivity|]. split; [reflexivity|]. split; [reflexivity|]. intros cx p s v s' _. exact I. Qed.
+Lemma member_ok_named_format n en f : member_ok (CRenamed n (CFormat en f)).
+Proof.
+  split; [reflexivity|]. split; [reflexivity|]. split; [reflexivity|].
+  intros cx p s v s'. cbn [parse actualsize_with sizeof]. apply (proj2 (elem_ok_format en f) cx (p ++ [n]) s v s').
+Qed.
+Lemma member_ok_named_varint n : member_ok (CRenamed n CVarInt).
+Proof. split; [reflexivity|]. split; [reflexivity|]. split; [reflexivity|]. intros cx p s v s' _. exact I. Qed.
+
+Example lazystruct_members_example :
+  Forall member_ok [CRenamed [x61] (CFormat Big FB); CRenamed [x62] CVarInt; CRenamed [x63] (CFormat Big FH)].
+Proof. repeat constructor; first [apply member_ok_named_format | apply member_ok_named_varint]. Qed.
